@@ -8,9 +8,12 @@ import (
 	"os"
 	"os/exec"
 	"path/filepath"
+	"regexp"
 	"sort"
 	"strings"
 	"sync"
+	"sync/atomic"
+	"syscall"
 	"time"
 
 	"github.com/bytemare/secp256k1/zz_verif/mon"
@@ -36,6 +39,12 @@ type c17Variant struct {
 	Thorough bool
 	// MayNotRun: the binary targets another architecture; if the kernel cannot execute it the variant is skipped.
 	MayNotRun bool
+	// RunEnv: environment of the RUNNING program (not of the build).
+	RunEnv []string
+	// Concurrent: the program's first use of the library is 16 goroutines hashing all inputs at once.
+	Concurrent bool
+	// Runs: how many times the built program is executed (every execution is judged); 0 = once.
+	Runs int
 }
 
 func c17Variants() []c17Variant {
@@ -79,6 +88,16 @@ func c17Variants() []c17Variant {
 		{Name: "trimpath", Flags: []string{"-trimpath"}, Print: "print", Thorough: true},
 		{Name: "gcflags-noinline", Flags: []string{"-gcflags=all=-l"}, Print: "print", Thorough: true},
 		{Name: "toolchain-go1.26.8", GoBin: "go1.26.8", Env: []string{"GOTOOLCHAIN=local"}, Print: "print"},
+		// the machine the program runs on: one CPU (a small container), an aggressive collector
+		{Name: "run-gomaxprocs-1", RunEnv: []string{"GOMAXPROCS=1"}, Print: "print"},
+		{Name: "run-gomaxprocs-2-gogc-1", RunEnv: []string{"GOMAXPROCS=2", "GOGC=1"}, Print: "print"},
+		{Name: "run-gomaxprocs-1-from-init", InInit: true, RunEnv: []string{"GOMAXPROCS=1"}, Print: "print"},
+		// a server: the very first calls into the library arrive on many goroutines at once (each program start is one
+		// cold first use, so the program is started many times)
+		{Name: "concurrent-first-use", Concurrent: true, Runs: 40, Print: "print"},
+		{Name: "concurrent-first-use-4-cpus", Concurrent: true, Runs: 20, RunEnv: []string{"GOMAXPROCS=4"}, Print: "print"},
+		{Name: "concurrent-first-use-1-cpu", Concurrent: true, Runs: 5, RunEnv: []string{"GOMAXPROCS=1"}, Print: "print"},
+		{Name: "concurrent-first-use-race-build", Concurrent: true, Runs: 6, Flags: []string{"-race"}, RunEnv: []string{"GORACE=halt_on_error=1"}, Print: "print"},
 	}
 }
 
@@ -101,6 +120,62 @@ func c17Inputs() []c17Input {
 	return out
 }
 
+const c17ConcurrentBody = `// runConcurrent: nothing of the library has run in this process; 16 goroutines start hashing at the same moment, each
+// its own rotation of the inputs. The values are printed afterwards; goroutines that disagree print "DIVERGED".
+func runConcurrent() {
+	const g = 16
+
+	var (
+		res   [g][]string
+		start = make(chan struct{})
+		done  = make(chan int, g)
+	)
+
+	for w := 0; w < g; w++ {
+		res[w] = make([]string, len(inputs))
+
+		go func(w int) {
+			<-start
+
+			for k := range inputs {
+				i := (k + w) % len(inputs)
+				res[w][i] = one(inputs[i])
+			}
+
+			done <- w
+		}(w)
+	}
+
+	close(start)
+
+	for w := 0; w < g; w++ {
+		<-done
+	}
+
+	for i := range inputs {
+		v := res[0][i]
+		for w := 1; w < g; w++ {
+			if res[w][i] != v {
+				v = "DIVERGED:" + v + "/" + res[w][i]
+				break
+			}
+		}
+
+		emit(i, v)
+	}
+
+	// and once more, sequentially, now that the process is warm: the first use must not have left anything broken
+	for i, in := range inputs {
+		if v := one(in); v != res[0][i] {
+			emit(i, "LATER:"+v)
+		}
+	}
+
+	emit(-1, "done")
+}
+
+`
+
 func c17Source(v c17Variant, inputs []c17Input) string {
 	var b strings.Builder
 
@@ -111,6 +186,7 @@ func c17Source(v c17Variant, inputs []c17Input) string {
 	}
 
 	b.WriteString("\t\"github.com/bytemare/secp256k1\"\n)\n\n")
+
 
 	if v.Pre != "" {
 		b.WriteString(v.Pre + "\n\n")
@@ -138,6 +214,17 @@ func mistake() {
 	secp256k1.HashToScalar([]byte("x"), nil)
 }
 
+func one(in [3]string) string {
+	switch in[0] {
+	case "H2G":
+		return secp256k1.HashToGroup([]byte(in[1]), []byte(in[2])).Hex()
+	case "E2G":
+		return secp256k1.EncodeToGroup([]byte(in[1]), []byte(in[2])).Hex()
+	default:
+		return secp256k1.HashToScalar([]byte(in[1]), []byte(in[2])).Hex()
+	}
+}
+
 func run() {
 	mistake()
 	for i, in := range inputs {
@@ -159,10 +246,18 @@ func run() {
 
 `)
 
+	entry := "run"
+
+	if v.Concurrent {
+		b.WriteString(c17ConcurrentBody)
+
+		entry = "runConcurrent"
+	}
+
 	if v.InInit {
-		b.WriteString("func init() { run() }\n\nfunc main() {}\n")
+		b.WriteString("func init() { " + entry + "() }\n\nfunc main() {}\n")
 	} else {
-		b.WriteString("func main() { run() }\n")
+		b.WriteString("func main() { " + entry + "() }\n")
 	}
 
 	return b.String()
@@ -175,11 +270,115 @@ func init() {
 		Rule: "executions = plain main programs (not test binaries) generated into a scratch module with `replace github.com/bytemare/secp256k1 => /repo`, differing in the set of other imports " +
 			"(nothing else at all, fmt+os, crypto/sha512, crypto/md5+hash/crc32, crypto/sha256 itself, the crypto registry package only; thorough: math/big, encoding/json, crypto/tls), in calling the library from init(), " +
 			"in what they do to process-wide state (the entropy source replaced by a failing one; the obvious names already taken in expvar / flag / http.DefaultServeMux), in what they do to the crypto hash registry (a program that re-registers SHA-256 as a wrapper around the standard one), and in build configuration (-ldflags='-s -w', -gcflags=all=-d=checkptr, GOARCH=386 executed natively, -tags=purego, CGO_ENABLED=0 with netgo/osusergo; -race, -gcflags=all=-N -l, the alternate toolchain go1.26.8; thorough: -trimpath, -gcflags=all=-l). Each calls HashToGroup, EncodeToGroup and HashToScalar on 4 (msg, DST) pairs including an oversize DST, and twice makes the documented mistake of an empty DST, recovers from the panic and carries on. " +
-			"Oracle: exit status 0, no panic text, and every printed value equal to the oracle's RFC 9380 value. The program importing nothing else is the minimum of the configuration lattice (adding imports can only add registrations), so it is the decisive one. " +
+			"Run-time configurations: GOMAXPROCS=1 (also from init), GOMAXPROCS=2 with GOGC=1. Concurrent-first-use programs, started 40/20/5/6 times each (x5 in thorough): the first calls into the library are 16 goroutines released together, each hashing all inputs in its own rotation (default CPUs, 4 CPUs, 1 CPU, and a -race build with halt_on_error); goroutines must agree with each other, with the oracle, and with a sequential pass afterwards. A program still running after 60 s is sent SIGQUIT and judged on its goroutine dump: all goroutines blocked and none runnable = deadlock (violation); otherwise inconclusive. " +
+			"Oracle: exit status 0, no panic text, no race report, and every printed value equal to the oracle's RFC 9380 value. The program importing nothing else is the minimum of the configuration lattice (adding imports can only add registrations), so it is the decisive one. " +
 			"evaluations = library calls observed across programs; distinct non-trivial = distinct (program, input) results checked.",
 		Assume: []string{"`go build` links exactly what the import graph requires; adding imports can only add hash registrations"},
 		Parent: c17Parent,
 	})
+}
+
+type c17Result struct {
+	v        c17Variant
+	run      int
+	buildErr string
+	exit     string
+	stdout   string
+	stderr   string
+	timed    bool
+	deadlock string
+	skipped  string
+}
+
+func (r c17Result) abnormal() bool {
+	return r.exit != "" || r.timed || r.deadlock != "" || r.buildErr != "" || r.skipped != ""
+}
+
+// c17Values extracts the R<i>=<value> lines (the builtin print writes them to stderr).
+func c17Values(s string) string {
+	var out []string
+
+	for _, ln := range strings.Split(s, "\n") {
+		if strings.HasPrefix(strings.TrimSpace(ln), "R") {
+			out = append(out, strings.TrimSpace(ln))
+		}
+	}
+
+	return strings.Join(out, "\n")
+}
+
+var c17GoroutineHeader = regexp.MustCompile(`(?m)^goroutine \d+ (?:gp=\S+ m=\S+ (?:mp=\S+ )?)?\[([^\],]+)`)
+
+// c17RunOnce executes the built program once. A program of this kind finishes in milliseconds; if it is still there
+// after a minute it is sent SIGQUIT and the verdict is read off the goroutine dump: when no goroutine is running or
+// runnable the program is deadlocked (it has no timers, I/O or signals to wake it), whatever the clock says.
+func c17RunOnce(dir string, v c17Variant) c17Result {
+	var r c17Result
+
+	run := exec.Command(filepath.Join(dir, "probe"))
+	run.Dir = dir
+	run.Env = append(append(os.Environ(), "GOTRACEBACK=all"), v.RunEnv...)
+
+	var so, se bytes.Buffer
+
+	run.Stdout, run.Stderr = &so, &se
+
+	if err := run.Start(); err != nil {
+		if v.MayNotRun {
+			r.skipped = "cannot execute this architecture here: " + err.Error()
+		} else {
+			r.buildErr = "cannot start: " + err.Error()
+		}
+
+		return r
+	}
+
+	done := make(chan error, 1)
+	go func() { done <- run.Wait() }()
+
+	select {
+	case err := <-done:
+		if err != nil {
+			r.exit = err.Error()
+		}
+	case <-time.After(60 * time.Second):
+		_ = run.Process.Signal(syscall.SIGQUIT)
+
+		select {
+		case <-done:
+		case <-time.After(30 * time.Second):
+			_ = run.Process.Kill()
+			<-done
+		}
+
+		r.timed = true
+
+		states := map[string]int{}
+		for _, m := range c17GoroutineHeader.FindAllStringSubmatch(se.String(), -1) {
+			states[m[1]]++
+		}
+
+		blocked, live := 0, 0
+
+		for st, n := range states {
+			switch st {
+			case "chan receive", "chan send", "select", "select (no cases)", "semacquire", "sync.Mutex.Lock", "sync.RWMutex.Lock", "sync.RWMutex.RLock", "sync.Cond.Wait", "sync.WaitGroup.Wait", "chan receive (nil chan)", "chan send (nil chan)":
+				blocked += n
+			case "GC worker (idle)", "GC sweep wait", "GC scavenge wait", "finalizer wait", "force gc (idle)", "cleanup wait", "syscall", "GC assist wait", "runfinq":
+				// runtime housekeeping (the signal goroutine sits in a syscall)
+			default:
+				live += n
+			}
+		}
+
+		if blocked > 0 && live == 0 && strings.Contains(se.String(), "github.com/bytemare/secp256k1.") {
+			r.deadlock = fmt.Sprintf("%d goroutines blocked, none runnable; states %v", blocked, states)
+		}
+	}
+
+	r.stdout, r.stderr = so.String(), se.String()
+
+	return r
 }
 
 func c17Parent(p *mon.Prop, pc *mon.ParentCtx) *mon.Aggregate {
@@ -219,20 +418,15 @@ func c17Parent(p *mon.Prop, pc *mon.ParentCtx) *mon.Aggregate {
 		variants = append(variants, v)
 	}
 
-	type result struct {
-		v        c17Variant
-		buildErr string
-		exit     string
-		stdout   string
-		stderr   string
-		timed    bool
-		skipped  string
-	}
-
-	results := make([]result, len(variants))
+	results := make([]c17Result, len(variants))
 	sem := make(chan struct{}, 8)
 
-	var wg sync.WaitGroup
+	var (
+		wg         sync.WaitGroup
+		mu         sync.Mutex
+		extra      []c17Result // every execution judged: the first of each program and all that differ from it
+		executions int64
+	)
 
 	for i, v := range variants {
 		wg.Add(1)
@@ -242,7 +436,7 @@ func c17Parent(p *mon.Prop, pc *mon.ParentCtx) *mon.Aggregate {
 			sem <- struct{}{}
 			defer func() { <-sem }()
 
-			r := result{v: v}
+			r := c17Result{v: v}
 			dir := filepath.Join(root, v.Name)
 			_ = os.MkdirAll(dir, 0o755)
 			gomod := fmt.Sprintf("module c17probe/%s\n\ngo 1.22.2\n\nrequire github.com/bytemare/secp256k1 v0.0.0\n\nreplace github.com/bytemare/secp256k1 => %s\n", strings.ReplaceAll(v.Name, ".", "-"), repo)
@@ -271,41 +465,38 @@ func c17Parent(p *mon.Prop, pc *mon.ParentCtx) *mon.Aggregate {
 				return
 			}
 
-			run := exec.Command(filepath.Join(dir, "probe"))
-			run.Dir = dir
-
-			var so, se bytes.Buffer
-
-			run.Stdout, run.Stderr = &so, &se
-
-			if err := run.Start(); err != nil {
-				if v.MayNotRun {
-					r.skipped = "cannot execute this architecture here: " + err.Error()
-				} else {
-					r.buildErr = "cannot start: " + err.Error()
-				}
-
-				results[i] = r
-
-				return
+			nruns := v.Runs
+			if nruns == 0 {
+				nruns = 1
 			}
 
-			done := make(chan error, 1)
-			go func() { done <- run.Wait() }()
-
-			select {
-			case err := <-done:
-				if err != nil {
-					r.exit = err.Error()
-				}
-			case <-time.After(5 * time.Minute):
-				_ = run.Process.Kill()
-				<-done
-
-				r.timed = true
+			if thorough {
+				nruns *= 5
 			}
 
-			r.stdout, r.stderr = so.String(), se.String()
+			for k := 0; k < nruns; k++ {
+				rr := c17RunOnce(dir, v)
+				rr.v = v
+				rr.run = k
+
+				if k == 0 || rr.abnormal() || rr.stdout != r.stdout || c17Values(rr.stderr) != c17Values(r.stderr) {
+					// keep every execution that differs from the first one (all are judged)
+					mu.Lock()
+					extra = append(extra, rr)
+					mu.Unlock()
+				}
+
+				if k == 0 {
+					r = rr
+				}
+
+				atomic.AddInt64(&executions, 1)
+
+				if rr.abnormal() {
+					break
+				}
+			}
+
 			results[i] = r
 		}(i, v)
 	}
@@ -322,8 +513,31 @@ func c17Parent(p *mon.Prop, pc *mon.ParentCtx) *mon.Aggregate {
 
 	perVariant := map[string]string{}
 
+	var judged []c17Result
+
 	for _, r := range results {
+		if r.skipped != "" || r.buildErr != "" {
+			judged = append(judged, r)
+		}
+	}
+
+	sort.SliceStable(extra, func(a, b int) bool {
+		if extra[a].v.Name != extra[b].v.Name {
+			return extra[a].v.Name < extra[b].v.Name
+		}
+
+		return extra[a].run < extra[b].run
+	})
+
+	judged = append(judged, extra...)
+	agg.Counters["program-executions"] = executions
+
+	for _, r := range judged {
 		v := r.v
+
+		if st, done := perVariant[v.Name]; done && st != "ok" {
+			continue // already reported for an earlier execution of this program
+		}
 
 		switch {
 		case r.skipped != "":
@@ -336,9 +550,22 @@ func c17Parent(p *mon.Prop, pc *mon.ParentCtx) *mon.Aggregate {
 			agg.Incon("program %q did not build: %s", v.Name, r.buildErr)
 
 			continue
+		case r.deadlock != "":
+			// decided on the goroutine dump, not on the clock: no goroutine of the program can run, so it can never finish
+			perVariant[v.Name] = "FAILED: deadlock"
+			agg.ViolCount++
+			agg.Violations = append(agg.Violations, mon.Violation{
+				Property: p.ID,
+				What:     fmt.Sprintf("program %q (run environment %v, execution %d) never returns from the library: every goroutine is blocked (%s)", v.Name, v.RunEnv, r.run, r.deadlock),
+				Key:      "program-deadlocks:" + v.Name,
+				Case:     map[string]any{"variant": v.Name, "source": c17Source(v, inputs)},
+				More:     map[string]any{"goroutine_dump": mon.Trunc(r.stderr, 3000)},
+			})
+
+			continue
 		case r.timed:
 			perVariant[v.Name] = "timed out"
-			agg.Incon("program %q: watchdog fired", v.Name)
+			agg.Incon("program %q: watchdog fired and the goroutine dump does not show a deadlock", v.Name)
 
 			continue
 		}
@@ -359,12 +586,12 @@ func c17Parent(p *mon.Prop, pc *mon.ParentCtx) *mon.Aggregate {
 			}
 		}
 
-		if r.exit != "" || strings.Contains(r.stderr, "panic:") || got[-1] != "done" {
+		if r.exit != "" || strings.Contains(r.stderr, "panic:") || strings.Contains(r.stderr, "DATA RACE") || got[-1] != "done" {
 			perVariant[v.Name] = "FAILED: " + r.exit
 			agg.ViolCount++
 			agg.Violations = append(agg.Violations, mon.Violation{
 				Property: p.ID,
-				What:     fmt.Sprintf("program %q (imports %v, flags %v) did not complete: exit %q, stderr: %s", v.Name, v.Imports, v.Flags, r.exit, mon.Trunc(strings.TrimSpace(r.stderr), 400)),
+				What:     fmt.Sprintf("program %q (imports %v, flags %v, run environment %v, execution %d) did not complete: exit %q, stderr: %s", v.Name, v.Imports, v.Flags, v.RunEnv, r.run, r.exit, mon.Trunc(strings.TrimSpace(r.stderr), 400)),
 				Key:      "program-fails:" + v.Name,
 				Case:     map[string]any{"variant": v.Name, "source": c17Source(v, inputs)},
 			})
@@ -384,7 +611,7 @@ func c17Parent(p *mon.Prop, pc *mon.ParentCtx) *mon.Aggregate {
 					agg.ViolCount++
 					agg.Violations = append(agg.Violations, mon.Violation{
 						Property: p.ID,
-						What:     fmt.Sprintf("program %q: %s(msg=%q, dst[%d]) printed %s, RFC 9380 value is %s", v.Name, inputs[i].Fn, inputs[i].Msg, len(inputs[i].Dst), got[i], expected[i]),
+						What:     fmt.Sprintf("program %q (execution %d): %s(msg=%q, dst[%d]) printed %s, RFC 9380 value is %s", v.Name, r.run, inputs[i].Fn, inputs[i].Msg, len(inputs[i].Dst), mon.Trunc(got[i], 160), expected[i]),
 						Key:      "program-wrong-value:" + v.Name,
 						Case:     map[string]any{"variant": v.Name, "input": inputs[i]},
 					})
